@@ -361,6 +361,95 @@ fn run_json_structure(cx: &mut CaseCx, _case: &Value) {
   cx.outcome("json structure");
 }
 
+
+/// "restored values are EQUAL to the originals" also for values that are legal to carry but are not group
+/// elements: points whose 32 bytes do not decode, evaluations holding them, public keys whose tag point does
+/// not decode. Equality is the type's own `==` (and byte equality), through JSON and bincode.
+fn run_undecodable_values(cx: &mut CaseCx, _case: &Value) {
+  cx.entropy(640);
+  let server = pp::Server::new(vec![1, 200]).expect("server");
+  let (blinded, _) = pp::Client::blind(b"undecodable");
+  let good = *blinded.as_bytes();
+  let mut odd = good;
+  odd[0] |= 1; // a canonical encoding has an even low byte: this one does not decode
+  let mut hi = good;
+  hi[31] |= 0x80;
+  let pts: Vec<(&str, [u8; 32])> = vec![("a client request", good), ("the neutral element", [0u8; 32]), ("0xff repeated", [0xff; 32]), ("a valid encoding with the low bit set", odd), ("a valid encoding with the top bit set", hi), ("0x01 then zeros", { let mut b = [0u8; 32]; b[0] = 1; b })];
+  for (name, b) in &pts {
+    let p = pp::Point::from(&b[..]);
+    cx.eval();
+    cx.nontrivial(fnv(b));
+    let d = || json!({"point": name, "bytes": hex(b)});
+    // reflexive, and equal to a second value built from the same bytes
+    if !(p == p.clone()) || !(p == pp::Point::from(&b[..])) {
+      cx.viol("C15/point-not-equal-to-itself", format!("a Point holding {} does not compare equal to a Point with the same 32 bytes", name), d());
+      return;
+    }
+    // JSON
+    match guard(|| serde_json::to_string(&p).ok().and_then(|js| serde_json::from_str::<pp::Point>(&js).ok())) {
+      Ok(Some(p2)) => {
+        if p2.as_bytes() != b || !(p2 == p) {
+          cx.viol("C15/point-json-differs", format!("a Point holding {} restored from its JSON form is not equal to the original ({})", name, if p2.as_bytes() == b { "same bytes, == says different" } else { "different bytes" }), d());
+          return;
+        }
+        cx.count("points_restored_equal", 1);
+      }
+      other => {
+        cx.viol("C15/point-json-load-failed", format!("a Point holding {} does not survive its JSON form: {:?}", name, other.map(|o| o.is_some())), d());
+        return;
+      }
+    }
+    // inside an Evaluation (no proof), JSON
+    let ev = pp::Evaluation { output: p.clone(), proof: None };
+    match guard(|| serde_json::to_string(&ev).ok().and_then(|js| serde_json::from_str::<pp::Evaluation>(&js).ok())) {
+      Ok(Some(ev2)) => {
+        if !(ev2.output == ev.output) || ev2.output.as_bytes() != b {
+          cx.viol("C15/evaluation-json-differs", format!("an Evaluation whose output is {} restored from JSON differs from the original", name), d());
+          return;
+        }
+      }
+      other => {
+        cx.viol("C15/evaluation-json-load-failed", format!("an Evaluation whose output is {} does not survive JSON: {:?}", name, other.map(|o| o.is_some())), d());
+        return;
+      }
+    }
+    // inside a public key: the tag point of tag 200 replaced in the binary form, loaded twice
+    if let Ok(mut pkb) = server.get_public_key().serialize_to_bincode() {
+      if let Some(at) = super::c13::tag_slot(&pkb, 200) {
+        pkb[at..at + 32].copy_from_slice(b);
+        match (guard(|| pp::ServerPublicKey::load_from_bincode(&pkb)), guard(|| pp::ServerPublicKey::load_from_bincode(&pkb))) {
+          (Ok(Ok(k1)), Ok(Ok(k2))) => {
+            cx.eval();
+            if !(k1 == k2) {
+              cx.viol("C15/pk-roundtrip-differs", format!("two public keys loaded from the same bytes (tag point = {}) do not compare equal", name), d());
+              return;
+            }
+            match k1.serialize_to_bincode().ok().and_then(|b2| pp::ServerPublicKey::load_from_bincode(&b2).ok().map(|k3| (b2, k3))) {
+              Some((b2, k3)) => {
+                if b2 != pkb || !(k3 == k1) {
+                  cx.viol("C15/pk-roundtrip-differs", format!("a public key whose tag point is {} restored from its binary form differs from the original", name), d());
+                  return;
+                }
+                cx.count("keys_restored_equal", 1);
+              }
+              None => {
+                cx.viol("C15/pk-serialize-failed", format!("a loaded public key whose tag point is {} does not serialise and load again", name), d());
+                return;
+              }
+            }
+          }
+          (Ok(Err(_)), Ok(Err(_))) => cx.count("keys_refused_at_load", 1),
+          other => {
+            cx.viol("C15/pk-load-not-deterministic", format!("{:?}", (other.0.map(|r| r.is_ok()), other.1.map(|r| r.is_ok()))), d());
+            return;
+          }
+        }
+      }
+    }
+  }
+  cx.outcome("undecodable values survive");
+}
+
 /// proof scalars at the group-order boundary; every write-failure point of the JSON serialisation
 fn run_boundaries(cx: &mut CaseCx, _case: &Value) {
   use curve25519_dalek::scalar::Scalar;
@@ -646,6 +735,13 @@ pub fn spec() -> PropSpec {
         gen: |_| vec![json!({})],
         run: run_json_structure,
         min_counts: &[("json_refused", 100), ("json_accepted", 4)],
+      },
+      Check {
+        name: "undecodable-values",
+        rule: "Points holding a client request, the neutral element, 0xff.., a valid encoding with the low / top bit set, 0x01 then zeros: equal to themselves and to a Point of the same bytes (the type's own ==), restored equal from JSON alone and inside an Evaluation; a public key whose tag point is replaced by each of them in the binary form: refused, or two loads compare equal and the key re-serialises to the same bytes and restores equal",
+        gen: |_| vec![json!({})],
+        run: run_undecodable_values,
+        min_counts: &[("points_restored_equal", 6)],
       },
       Check {
         name: "scalar-boundaries-and-write-failures",
